@@ -130,7 +130,7 @@ def _claim_none_keys(args):
     w = W(db, args[0])
     axioms(db, args[0])
     # the joined rows are determined by the node row: file.node = node.i, cnode.i = node.creator
-    return [dict(node=w, file=w, cnode=creator_t(db, w))]
+    return [{"node": w, "file": w, "node#2": creator_t(db, w)}]  # rows by role: the claim node, its file row, its creator
 
 
 CLAIM_QUERY = graphdb.query("SELECT file.state, cnode.i, cnode.kind, cnode.label FROM node JOIN file", ClaimRow,
@@ -271,7 +271,7 @@ def _step_none_keys(args):
     db = cur().data["args"]["self"]._fields["db"]
     step_axioms(db, args[0])
     w = WS(db, args[0])
-    return [dict(node=w, cnode=creator_t(db, w))]
+    return [{"node": w, "node#2": creator_t(db, w)}]
 
 
 STEP_QUERY = graphdb.query("SELECT cnode.kind, cnode.label FROM node JOIN node AS cnode", ty.TupleOf(ty.Str, ty.Str),
